@@ -53,7 +53,9 @@ TraceReset ==
 
 (* ------------------------- what the harness does ------------------------- *)
 TracePublish  == Ev("Publish") /\ Trace[i].v \in Versions /\ Publish(Trace[i].v) /\ Step
-TraceFailNext == Ev("FailNext") /\ FailNext /\ Step
+\* the harness's FailNext sets a flag ("the next read fails"); setting it while it is still set (no read has consumed it,
+\* e.g. because the ticker stopped after a cancel) is idempotent, so the event is then a stuttering step of the specification
+TraceFailNext == Ev("FailNext") /\ Step /\ (IF failNext THEN UNCHANGED vars ELSE FailNext)
 TraceAdvance  == Ev("Advance") /\ Advance /\ Step
 TraceCancel   == Ev("Cancel") /\ Cancel /\ Step
 TraceSubmit   == Ev("Submit") /\ Trace[i].s \in Subs /\ Trace[i].c \in Certs /\ SCall(Trace[i].s, Trace[i].c) /\ Step
